@@ -20,6 +20,7 @@
 package dtls
 
 import (
+	"context"
 	"crypto"
 	"crypto/ecdsa"
 	"crypto/ed25519"
@@ -41,10 +42,12 @@ import (
 	"testing/synctest"
 	"time"
 
+	dtlsflight "github.com/pion/dtls/v3/internal/flight"
 	dtlsstate "github.com/pion/dtls/v3/internal/state"
 	"github.com/pion/dtls/v3/pkg/crypto/prf"
 	"github.com/pion/dtls/v3/pkg/protocol"
 	"github.com/pion/dtls/v3/pkg/protocol/handshake"
+	"github.com/pion/dtls/v3/pkg/protocol/recordlayer"
 	"github.com/pion/logging"
 )
 
@@ -110,6 +113,8 @@ func c03ExtConfigs(s c03Scn, cp, svp **dtlsConfig, _ *c03Obs) {
 			sv.PSKIdentityHint = []byte("nobody")
 			sv.psk = func([]byte) ([]byte, error) { return nil, nil }
 		}
+	case "ack_all_silent", "ack_part_silent", "ack_all_nocert":
+		c03AckConfigs(s, c)
 	case "psk_only_13":
 		// client: WithPSK only - no RootCAs, no ServerName, no certificates - but DTLS 1.3 allowed
 		c2 := vBaseConfig()
@@ -124,8 +129,61 @@ func c03ExtConfigs(s c03Scn, cp, svp **dtlsConfig, _ *c03Obs) {
 	}
 }
 
+// ---------------------------------------------------------------- DTLS 1.3: the client ACKs the server's flight
+//
+// A rogue DTLS 1.3 client that has received (and could verify) the whole server flight does not answer
+// with its own final flight: it sends ONE epoch-2 ACK record and
+//   ack_all_silent   - acknowledges every protected record of the server's flight, then stays silent;
+//   ack_part_silent  - acknowledges only the first of them, then stays silent;
+//   ack_all_nocert   - acknowledges all of them and afterwards sends an ordinary final flight without certificate.
+// The real client is stopped between its flight 3 and flight 5 (trace hook of its logger, the state
+// machine's own goroutine): there it writes the ACK and, for the silent variants, blocks until the
+// scenario is over.
+
+var (
+	c03SilentRelease chan struct{} //nolint:gochecknoglobals
+	c03AckSent       int           //nolint:gochecknoglobals
+)
+
+func c03AckConfigs(s c03Scn, c *dtlsConfig) {
+	c.Certificates = nil
+	c.getClientCertificate = nil
+	release := func() <-chan struct{} { return c03SilentRelease }
+	c.LoggerFactory = &c03HookLogger{onTrace: func(m string) {
+		conn := c03AttackerConn
+		if conn == nil || !strings.Contains(m, "handshake13:client") || !strings.Contains(m, "Flight 3 -> Flight 5") {
+			return
+		}
+		n := 32
+		if s.Rogue == "ack_part_silent" {
+			n = 1
+		}
+		records := make([]protocol.RecordNumber, 0, n)
+		for seq := uint64(0); seq < uint64(n); seq++ {
+			records = append(records, protocol.RecordNumber{Epoch: 2, SequenceNumber: seq})
+		}
+		if err := conn.writePackets(context.Background(), []*dtlsflight.Packet{{
+			Record: &recordlayer.RecordLayer{
+				Header:  recordlayer.Header{Version: protocol.Version1_2, Epoch: 2},
+				Content: &protocol.ACK{Records: records},
+			},
+			ShouldEncrypt: true,
+		}}); err == nil {
+			c03AckSent = n
+		}
+		if s.Rogue != "ack_all_nocert" {
+			<-release()
+		}
+	}}
+}
+
 func c03ExtScenarios() []c03Scn {
 	var out []c03Scn
+	for _, r := range []string{"ack_all_silent", "ack_part_silent", "ack_all_nocert"} {
+		for pol := 0; pol <= 4; pol++ {
+			out = append(out, c03Scn{Ver: 13, Suite: "cert", Honest: "server", Rogue: r, Policy: pol})
+		}
+	}
 	for _, ver := range []int{12, 13} {
 		for _, name := range []string{"server.verif", "192.0.2.10", "2001:db8::10", "-"} {
 			for _, crt := range []string{"dns", "dnsother", "ip4", "ip4other", "ip6", "ip6other"} {
